@@ -159,7 +159,16 @@ def run(ctx: core.Ctx) -> int:
     check_tick(ctx, rel, "ManagedFilter.tick", "python", te.events, te.problems, held_all=["current_time", "state", "covariance"],
                held_state=["state", "covariance"], readings_param="readings", output_param=names[0], control_param="control", lang="py")
     traces["python"] = canon(te.events)
-    # ---- C++
+    nt = cpp_part(ctx, traces)
+    ctx.floor("TICKPLAN", nt + 1, 9, "tick bodies (1 Python + 2 per C++ valuation)")
+    ref = traces.get("python")
+    for k, t in traces.items():
+        ctx.oblige("SIBLINGS", f"{k}", f"trace {t}", t == ref, file=HDR if k != "python" else PYF, func="tick", construct=f"sibling trace {k.split()[0]}",
+                   msg=f"the call skeleton of {k} is {t}, Python's is {ref}")
+    return core.finish(ctx, explanation="E5: ordered event lists of every tick body vs the TickPlan; effect analysis of held fields", **META)
+
+
+def cpp_part(ctx: core.Ctx, traces) -> int:
     ir = rtmodel.cpp_runtime_ir(ctx)
     if ir.get("__rc__"):
         ctx.note("ManagedFilter.h does not type-check for some valuation (see C12): " + ir["__diag__"].splitlines()[0][:160])
@@ -188,9 +197,4 @@ def run(ctx: core.Ctx) -> int:
                        held_state=["_state.state"], readings_param=readings, output_param=pn[0], control_param=control, lang="cpp")
             if readings is not None:
                 traces[f"C++ {val} tick/{len(params)}"] = canon(te.events)
-    ctx.floor("TICKPLAN", nt + 1, 9, "tick bodies (1 Python + 2 per C++ valuation)")
-    ref = traces.get("python")
-    for k, t in traces.items():
-        ctx.oblige("SIBLINGS", f"{k}", f"trace {t}", t == ref, file=HDR if k != "python" else PYF, func="tick", construct=f"sibling trace {k.split()[0]}",
-                   msg=f"the call skeleton of {k} is {t}, Python's is {ref}")
-    return core.finish(ctx, explanation="E5: ordered event lists of every tick body vs the TickPlan; effect analysis of held fields", **META)
+    return nt
